@@ -455,6 +455,50 @@ fn zone(v: i64, t: i64) -> String {
 fn gen_common(thorough: bool, rng: &mut Rng) -> Result<(), String> {
     let pool = Pool::load()?;
     let names: Vec<String> = pool.defs.iter().map(|(n, _)| n.clone()).collect();
+    // one verifier object judging several proofs in a row (`verify` takes `&mut self`): its verdict on a proof must not
+    // depend on the proofs it has seen before; 1..3 credentials, link secret declared common
+    for k in 0..(if thorough { 12 } else { 3 }) {
+        let ncred = 1 + k % 3;
+        let link = dec_of_hex(&rng.hex_bits(255));
+        let mut held = vec![];
+        let mut reqs = vec![];
+        for _ in 0..ncred {
+            let name = rng.pick(&names).clone();
+            let h = hold(&pool, &name, &link, rng)?;
+            reqs.push(random_request(&h, rng, true));
+            held.push(h);
+        }
+        let sc = Scenario { held, reqs, common: vec!["master_secret".to_string()], nonce: new_nonce().map_err(|e| e.to_string())? };
+        let (p1, p2) = match (prove(&pool, &sc).1, prove(&pool, &sc).1) {
+            (Out::Ok(a), Out::Ok(b)) => (a, b),
+            _ => return Err("common/reuse: honest proof could not be built".into()),
+        };
+        let nonce_dec = sc.nonce.to_dec().unwrap_or_default();
+        let mut results: Vec<Out<bool>> = vec![];
+        let built: Out<()> = guard(|| {
+            let mut pv = Verifier::new_proof_verifier()?;
+            for a in &sc.common { pv.add_common_attribute(a)?; }
+            for (h, r) in sc.held.iter().zip(sc.reqs.iter()) {
+                let cd = pool.get(&h.cd_name);
+                pv.add_sub_proof_request(&r.build().map_err(|e| err_msg_s(&e))?, &cd.schema, &cd.non_schema, &cd.pk, None, None)?;
+            }
+            for p in [&p1, &p2, &p1] {
+                results.push(guard(|| pv.verify(p, &sc.nonce)));
+            }
+            Ok::<(), Error>(())
+        });
+        if !built.is_ok() { return Err(format!("common/reuse: verifier could not be set up: {}", built.msg())); }
+        for (n, (p, res)) in [&p1, &p2, &p1].iter().zip(results.iter()).enumerate() {
+            let mut or = vec![];
+            if !matches!(res, Out::Ok(true)) {
+                or.push(json!({"name":"honest_proof_verifies","ok":false,"detail":format!(
+                    "a verifier object used again: call {} of verify (valid proof over {} credential(s), link secret common) returned {} {}", n + 1, ncred, res.tag(), res.msg())}));
+            }
+            let mut iv = out_bool_json(res);
+            iv["oracles"] = json!(or);
+            emit(&verify_case(&format!("common/reuse/{}/{}", k, n), &pool, &sc, &jv(*p), &nonce_dec, iv, json!({"alteration":"none","kind":"verifier_reused","call": n + 1, "ncred": ncred})));
+        }
+    }
     let n = if thorough { 160 } else { 14 };
     // which credentials hold the first value (A) and which another one (B): every position of the
     // odd one out, runs of equal values before a different one, two pairs
